@@ -134,3 +134,17 @@ def late_bound(fn_node):
                     if free & loopvars:
                         out.append(f"{norm(lam)[:60]} reads {sorted(free & loopvars)} late")
     return out
+
+
+def default_of(repo, qual, param):
+    """Source text of the default value of a parameter (positional or keyword-only), None if it has none."""
+    import ast
+    a = repo.func(qual).node.args
+    pos = a.posonlyargs + a.args
+    for p, d in zip(pos[len(pos) - len(a.defaults):], a.defaults):
+        if p.arg == param:
+            return ast.unparse(d)
+    for p, d in zip(a.kwonlyargs, a.kw_defaults):
+        if p.arg == param and d is not None:
+            return ast.unparse(d)
+    return None
